@@ -130,7 +130,7 @@ def run(run):
     for e in evs:
         run.case((e["ev"], e["tid"]), nontrivial=(e["a"] not in (0, []) and e["b"] not in (0, [])))
     run.log("%d events recorded" % len(evs))
-    mism = tv.validate(run, "Trace_Algebra", evs, name="TV C18", timeout=3000, heap="12g")
+    mism = tv.validate_sharded(run, "Trace_Algebra", evs, (lambda e: True), name="TV C18", max_events=(4000 if quick else 8000), jobs=10)      # stateless trace: any cut is a header
     seen = set()
     for (t, line, clause) in mism:
         e = evs[line - 1]
@@ -147,7 +147,8 @@ def run(run):
             i = next(i for i, e in enumerate(ev2) if e["ev"] == "Poly" and e["a"] > 1 and e["b"] > 1)
             ev2[i]["mul"] ^= 1
             return i + 1
-        ok, msg = tv.selftest_binding("Trace_Algebra", evs[:200], corrupt, "product_is_carryless_product")
+        j0 = next(i for i, e in enumerate(evs) if e["ev"] == "Poly" and e["a"] > 1 and e["b"] > 1)
+        ok, msg = tv.selftest_binding("Trace_Algebra", evs[j0:j0 + 200], corrupt, "product_is_carryless_product")
         if not ok:
             raise tlc.TLCFailure("binding self-test failed: " + msg)
         run.extra["binding_selftest"] = "flipping the constant term of one logged product is rejected at that line"
